@@ -452,9 +452,17 @@ func runC20(cx *CheckCtx) {
 				}
 			}
 		}
+		if put != nil && del != nil {
+			okE, why := everyElement(aa, put, nil)
+			cx.decide(okE, "every-key", "neofsid.AddKey", "every submitted key is bound", "AddKey does not bind every submitted key: "+why, put.Where(w))
+			// an iteration may go round the delete only when the record is established absent
+			okE, why = everyElement(ra, del, func(st *CNF) bool { return ra.holdsAt(st, ra.litNil(ra.tb.mk("read", "", 0, del.Args[1]))) })
+			cx.decide(okE, "every-key", "neofsid.RemoveKey", "every submitted key is unbound", "RemoveKey does not unbind every submitted key (key(owner) keeps returning removed keys): "+why, del.Where(w))
+		}
 		cx.decide(ok && okK, "put-get-key", "neofsid.AddKey|RemoveKey|Key", "'o'‖owner(25)‖key for add/remove, Key scans 'o'‖owner(25) returning the key part", "neofsid add/remove/key do not agree on the key 'o'‖owner(25)‖public key", w.pos(am.Fn.Pos()))
 	}
 	// configuration maps
+	checkNetmapSetConfigAlways(cx, "config-set")
 	for _, cn := range []string{"netmap", "neofs"} {
 		sm, gm, lm := cx.method(cn, "SetConfig"), cx.method(cn, "Config"), cx.method(cn, "ListConfig")
 		if sm == nil || gm == nil || lm == nil {
@@ -484,6 +492,36 @@ func runC20(cx *CheckCtx) {
 		}
 		cx.decide(ok && okG && okL, "put-get-key", cn+".SetConfig|Config|ListConfig", "'config'‖key → value; Config reads the same key; ListConfig scans 'config'", cn+": setConfig/config/listConfig do not agree on the key 'config'‖key", w.pos(sm.Fn.Pos()))
 	}
+}
+
+// checkNetmapSetConfigAlways: every normal return of netmap.SetConfig has stored
+// the submitted value under 'config'‖key (no value — in particular not the
+// empty string that encodes 0 — is silently dropped). Shared by C20 (the
+// configuration map returns what was put) and C05 (the fee charged is the fee
+// configured at that moment).
+func checkNetmapSetConfigAlways(cx *CheckCtx, rule string) {
+	m := cx.method("netmap", "SetConfig")
+	if m == nil {
+		return
+	}
+	a := cx.run(m)
+	var put *Site
+	for _, s := range a.RealEffects() {
+		if s.Effect == "put" && keyFamily(s.Args[1]) == "config" {
+			put = s
+		}
+	}
+	ok := put != nil && put.Args[1] == a.tb.cat(a.tb.constBytes("config"), paramTerm(a.tb, m, "key")) && put.Args[2] == paramTerm(a.tb, m, "val") && len(a.Exits()) > 0
+	where := cx.W.pos(m.Fn.Pos())
+	if ok {
+		for _, ex := range a.Exits() {
+			if !a.holdsAt(ex.State, a.eLit(put)) {
+				ok = false
+				where = exitPos(cx.W, ex)
+			}
+		}
+	}
+	cx.decide(ok, rule, "netmap.SetConfig/always", "every normal return has stored 'config'‖key → val", "netmap.SetConfig can return normally without storing the submitted value (for example the empty string that encodes 0): the previous setting silently stays in force", where)
 }
 
 // containerIsStorageNodeFn: the membership predicate of PutContainerSize — the
